@@ -23,6 +23,10 @@ func (c *ClientChannel) receiveSessionFromServer(ctx context.Context) (*Session,
 		return nil, fmt.Errorf("receive session: %w", err)
 	}
 
+	if ses.State.Step() < c.State().Step() {
+		return nil, fmt.Errorf("receive session: invalid transition from %v to %v", c.State(), ses.State)
+	}
+
 	if ses.State == SessionStateEstablished {
 		c.localNode = ses.To
 		c.remoteNode = ses.From
